@@ -240,6 +240,11 @@ func runC01(c *Ctx) {
 	// the labels do not depend on how the directory was spelled (R12.2)
 	if c.R.Filter == nil {
 		borrowRules(c, []string{"R12.2"}, runC12)
+		// shared with C08: a copy that reaches into the last Read of a reader is found whole only if the bytes delivered
+		// together with the end of the input are counted (R08.3); shared with C03: a copy of a document is reported only
+		// if the document's key has the three components the reporting code takes apart (R03.6)
+		borrowRules(c, []string{"R08.3"}, runC08)
+		borrowRules(c, []string{"R03.6"}, runC03)
 	}
 	ts := p.Func(v2pkg, "tokenizeStream")
 	if !c.R.Anchor(ts != nil, "v2.tokenizeStream") {
@@ -662,6 +667,11 @@ func runC02(c *Ctx) {
 	// shared with C06: a word is the first of its line - and may be dropped as a list marker - only if nothing of the line
 	// was handed over before it (R06.15); a dropped word that belongs to the text makes a longer text score 1.0
 	checkLineStringifier(c, p)
+	// shared with C04: ... the id of a word is the dictionary's id of that very word (R04.12)
+	checkDictLookupsOnCleanWord(c, p)
+	// shared with C06: ... and only if the text of a token is computed for that token at its own position - a list marker
+	// dropped from the middle of a line because the same word was one at a line start shortens the scored span (R06.5)
+	checkTokenTextProvenance(c, p)
 	// shared with C08: Confidence 1.0 means word-for-word identical only if every byte of the input reaches the tokenizer -
 	// also the bytes a reader delivers together with the end of the input (R08.3)
 	if c.R.Filter == nil {
@@ -914,12 +924,18 @@ func runC05(c *Ctx) {
 	if mf, cf := p.Func(v2pkg, "(*Classifier).match"), p.Func(v2pkg, "contains"); mf != nil && cf != nil {
 		checkOverlapWeights(c, p, mf, cf)
 	}
+	checkCandidateLinesTraversed(c, p)
 	// shared with C06: whether a line is a notice is decided for every line, whatever its length in bytes (R06.6): a
 	// typographic quote is three bytes where the ASCII one is one
 	checkNoticePatternsUnconditional(c, p)
 	// shared with C03: each notice line is reported by a pseudo-match of its own, built once (R03.13) - a pseudo-match that
 	// is extended when the next line is a notice too makes the number of matches depend on blank lines between them
 	checkMatchImmutable(c, p)
+	// shared with C08: Match hands every byte of the text to the tokenizer, whatever its length or its first bytes look
+	// like (R08.1/R08.2: Match and MatchFrom only delegate) - decoration makes a file longer and changes its first bytes
+	if c.R.Filter == nil {
+		borrowRules(c, []string{"R08.1", "R08.2"}, runC08)
+	}
 	ts := p.Func(v2pkg, "tokenizeStream")
 	if !c.R.Anchor(ts != nil, "v2.tokenizeStream") {
 		return
@@ -1348,6 +1364,10 @@ func runC06(c *Ctx) {
 	tokenizerWindowRules(c, p)
 	checkWordTable(c, p)
 	checkLineStringifier(c, p)
+	checkDictLookupsOnCleanWord(c, p)
+	// shared with C03: an inserted notice is reported on exactly its line only if its pseudo-match is built once and
+	// never extended by a neighbouring notice (R03.13)
+	checkMatchImmutable(c, p)
 	// R03.7
 	n := 0
 	for _, lit := range structLits(v2Funcs(p), "/v2.Match") {
@@ -2050,6 +2070,9 @@ func runC11(c *Ctx) {
 	// words that Match of the normalized text treats differently
 	checkSchemeRewrite(c, p)
 	checkNoticePatternsUnconditional(c, p)
+	// shared with C06: list markers are dropped at the start of a line by Match and by Normalize alike only if the position
+	// offset of a line ends with that line in both modes (R06.9/R06.10)
+	checkMidLineReset(c, p)
 	// shared with C08: Normalize moves the bytes of the text to other offsets, so the original and its normalized form agree
 	// only if no word depends on where the read window happens to end (R08.4/R08.5/R08.8)
 	tokenizerWindowRules(c, p)
@@ -2246,6 +2269,7 @@ func runC11(c *Ctx) {
 	}
 	checkWordTable(c, p)
 	checkNoticeDecisionOnCleanedLine(c, p)
+	checkNumberWordsAndLocalDictionary(c, p)
 	checkCaseFoldedLookups(c, p, ts)
 	checkSpellingLookupOnCleanText(c, p)
 	// R11.6 the normalised text is returned as it was written: line k of the result is line k of the input
@@ -2956,6 +2980,52 @@ func checkSpellingLookupOnCleanText(c *Ctx, p *core.Prog) {
 							lenGuard = p.Pos(bo.Pos())
 						}
 					}
+				}
+				// R06.18: the table maps whole words: the key is the cleaned word itself - the value the function hands back when
+				// the table has no entry - and a hit is answered with the table's value itself. A key cut out of the word (a
+				// stem) together with a re-attached ending never finds the rows that are plurals themselves, and invents pairs
+				// the table does not have.
+				if fn.Signature.Results().Len() == 1 && isString(fn.Signature.Results().At(0).Type()) {
+					keyReturned, valueReturned := false, false
+					var isOrHas func(v, want ssa.Value, d int) bool
+					isOrHas = func(v, want ssa.Value, d int) bool {
+						if core.Unspill(v) == core.Unspill(want) {
+							return true
+						}
+						if ph, ok := v.(*ssa.Phi); ok && d < 3 {
+							for _, e := range ph.Edges {
+								if isOrHas(e, want, d+1) {
+									return true
+								}
+							}
+						}
+						return false
+					}
+					for _, rb := range fn.Blocks {
+						ret, isRet := rb.Instrs[len(rb.Instrs)-1].(*ssa.Return)
+						if !isRet || len(ret.Results) != 1 {
+							continue
+						}
+						if isOrHas(ret.Results[0], lk.Index, 0) {
+							keyReturned = true
+						}
+						for _, r := range *lk.Referrers() {
+							if ex, ok := r.(*ssa.Extract); ok && ex.Index == 0 && isOrHas(ret.Results[0], ex, 0) {
+								valueReturned = true
+							}
+						}
+						if !lk.CommaOk && isOrHas(ret.Results[0], lk, 0) {
+							valueReturned = true
+						}
+					}
+					why := ""
+					if !keyReturned {
+						why = "the key of the lookup (" + eng.Describe(lk.Index) + ") is not the word that is handed back when the table has no entry: the table is consulted with something else than the cleaned word"
+					} else if !valueReturned {
+						why = "no return hands back the table's value as it is: a hit is answered with a string assembled around it"
+					}
+					c.R.Check(why == "", "R06.18", core.ShortFn(fn)+": the spelling table maps the whole cleaned word to the table's value", p.Pos(lk.Pos()),
+						"key = the word returned on a miss; a hit returns the table's value itself", why+" - the rows that do not fit the assumed word form (capitalisations/capitalizations) stop being interchangeable")
 				}
 				c.R.Check(lenGuard == "", "R06.12", core.ShortFn(fn)+": the spelling table is consulted for words of every length", p.Pos(lk.Pos()),
 					"no length test on the word stands in front of the lookup", "the lookup only happens behind a test of the word's length ("+lenGuard+"): the pairs on the other side of the bound (whilst/while, centre/center, favour/favor ...) are never replaced")
@@ -5232,4 +5302,223 @@ func checkTokenTextProvenance(c *Ctx, p *core.Prog) {
 		c.R.RequireMin("R06.5", "cleanupToken call sites", n, 1)
 	}
 
+}
+
+// checkNumberWordsAndLocalDictionary: R11.14, R11.15.
+func checkNumberWordsAndLocalDictionary(c *Ctx, p *core.Prog) {
+	// R11.14: a word is cleaned as a number because its first rune is a digit in the sense of unicode.IsDigit; the runes that
+	// are kept on that path are chosen with the same predicate. With a narrower one (ASCII digits only) a word such as "２.0"
+	// is cleaned to ".0" - a word that starts with punctuation, which is skipped when the cleaned text is tokenized again.
+	if ct := p.Func(v2pkg, "cleanupToken"); ct != nil {
+		callsIsDigit := func(f *ssa.Function) bool {
+			for _, g := range pkgClosure(f, v2pkg) {
+				for _, call := range core.CallsIn(g) {
+					if core.StaticCalleeName(call.Common()) == "unicode.IsDigit" {
+						return true
+					}
+				}
+			}
+			return false
+		}
+		nP := 0
+		for _, b := range ct.Blocks {
+			ifi, ok := b.Instrs[len(b.Instrs)-1].(*ssa.If)
+			if !ok {
+				continue
+			}
+			call, ok := ifi.Cond.(*ssa.Call)
+			if !ok || core.StaticCalleeName(call.Common()) != "unicode.IsDigit" {
+				continue
+			}
+			// the rune tested is the first rune of the word (decoded outside any loop)
+			if loopDepthOf(b) > 0 {
+				continue
+			}
+			nP++
+			yes := b.Succs[0]
+			found := false
+			for _, nb := range ct.Blocks {
+				if !yes.Dominates(nb) {
+					continue
+				}
+				for _, in := range nb.Instrs {
+					cv, isCall := in.(*ssa.Call)
+					if !isCall {
+						continue
+					}
+					if core.StaticCalleeName(cv.Common()) == "unicode.IsDigit" {
+						found = true
+					}
+					if g := cv.Call.StaticCallee(); g != nil && core.FuncPkgPath(g) == v2pkg && callsIsDigit(g) {
+						found = true
+					}
+				}
+			}
+			c.R.Check(found, "R11.14", "cleanupToken: the digits kept in a number are chosen with the predicate that made the word a number", p.Pos(ifi.Cond.Pos()),
+				"unicode.IsDigit decides the path and selects the runes on it", "the path taken for a word whose first rune satisfies unicode.IsDigit never asks unicode.IsDigit again: the runes are selected with another test, so a number written with non-ASCII digits loses its first rune and the cleaned word starts with '.' or '-' - Normalize writes a word that is read back differently")
+		}
+		if nP == 0 {
+			c.R.Info("R11.14", "cleanupToken: number words", p.Pos(ct.Pos()), "not decided: no branch on unicode.IsDigit of the word's first rune")
+		}
+	}
+	// R11.15: the word maps of a dictionary are assigned where the dictionary is created and nowhere else. The tokenizer holds
+	// token ids of the current line that refer to its local dictionary: a dictionary that is started afresh in the middle of
+	// a text turns those ids into other words (or UNKNOWN), at a point that depends on the number of distinct raw words - which
+	// differs between a text and its normalised form.
+	{
+		nS, bad := 0, ""
+		for _, fn := range v2Funcs(p) {
+			for _, b := range fn.Blocks {
+				for _, in := range b.Instrs {
+					st, ok := in.(*ssa.Store)
+					if !ok {
+						continue
+					}
+					fa, ok := st.Addr.(*ssa.FieldAddr)
+					if !ok {
+						continue
+					}
+					stT := core.StructOf(fa.X.Type())
+					var nm *types.Named
+					if pt, isPtr := fa.X.Type().Underlying().(*types.Pointer); isPtr {
+						nm, _ = pt.Elem().(*types.Named)
+					}
+					if stT == nil || nm == nil || nm.Obj().Name() != "dictionary" {
+						continue
+					}
+					if _, isMap := stT.Field(fa.Field).Type().Underlying().(*types.Map); !isMap {
+						continue
+					}
+					nS++
+					if _, fresh := core.Unspill(fa.X).(*ssa.Alloc); !fresh && bad == "" {
+						bad = core.ShortFn(fn) + " assigns " + stT.Field(fa.Field).Name() + " of an existing dictionary at " + p.Pos(st.Pos())
+					}
+				}
+			}
+		}
+		c.R.Check(bad == "", "R11.15", "the word maps of a dictionary are assigned only where it is created", v2pkg, fmt.Sprintf("%d stores into the map fields of a dictionary, all into a struct allocated by the same function", nS),
+			bad+": token ids handed out before that point now name other words - the words of the line being assembled are garbled, and where that happens differs between a text and its normalised form")
+		c.R.RequireMin("R11.15", "stores into the map fields of a dictionary", nS, 2)
+	}
+}
+
+// checkDictLookupsOnCleanWord: R04.12. In the function that turns the words of a line into tokens (the one that calls
+// cleanupToken), the dictionary is asked for the id of the cleaned word itself: the string handed to getIndex/add is a cleaned
+// word - an element of the list of cleaned words or the result of cleanupToken - never a string computed from it (a stem, a
+// re-cased form). A second look-up under another spelling makes the id of an input word depend on which other words the
+// corpus happens to contain: an unrelated document that holds the plural changes the tokens, and the confidence, of the input.
+func checkDictLookupsOnCleanWord(c *Ctx, p *core.Prog) {
+	ct := p.Func(v2pkg, "cleanupToken")
+	if ct == nil {
+		return // anchor reported by R06.5
+	}
+	n := 0
+	for _, fn := range v2Funcs(p) {
+		callsCT := false
+		for _, call := range core.CallsIn(fn) {
+			if call.Common().StaticCallee() == ct {
+				callsCT = true
+			}
+		}
+		if !callsCT {
+			continue
+		}
+		for _, call := range core.CallsIn(fn) {
+			g := call.Common().StaticCallee()
+			if g == nil || g.Signature.Recv() == nil || !strings.HasSuffix(g.Signature.Recv().Type().String(), "dictionary") || (g.Name() != "getIndex" && g.Name() != "add") {
+				continue
+			}
+			n++
+			bad := ""
+			seen := map[ssa.Value]bool{}
+			var walk func(v ssa.Value)
+			walk = func(v ssa.Value) {
+				v = core.Unspill(v)
+				if seen[v] || bad != "" {
+					return
+				}
+				seen[v] = true
+				switch x := v.(type) {
+				case *ssa.Phi:
+					for _, e := range x.Edges {
+						walk(e)
+					}
+				case *ssa.Extract, *ssa.Parameter, *ssa.Const:
+				case *ssa.UnOp:
+					if _, ok := x.X.(*ssa.IndexAddr); !ok && x.Op == token.MUL {
+						bad = eng.Describe(x)
+					}
+				case *ssa.Call:
+					if x.Call.StaticCallee() != ct {
+						bad = eng.Describe(x)
+					}
+				default:
+					bad = eng.Describe(v)
+				}
+			}
+			walk(call.Common().Args[len(call.Common().Args)-1])
+			c.R.Check(bad == "", "R04.12", core.ShortFn(fn)+": the dictionary is asked for the id of the cleaned word itself", p.Pos(call.Pos()), "the argument is a cleaned word (list element / cleanupToken result)",
+				"the word handed to "+g.Name()+" is "+bad+", a string computed from the cleaned word: whether that look-up succeeds depends on the other documents of the corpus, so an unrelated document changes the tokens - and the confidence - of an input")
+		}
+	}
+	c.R.RequireMin("R04.12", "dictionary look-ups in the function that cleans the words of a line", n, 1)
+}
+
+// checkCandidateLinesTraversed: R05.11. Where match walks over the lines of a candidate (a loop whose exit test compares its
+// counter with the candidate's EndLine), the walk ends only when the lines are exhausted: the loop has no second way out (a
+// cap on the number of lines looked at, a break). The overlap filter finds the earlier candidates of a candidate through its
+// lines; lines that are skipped hide candidates from it, so inserting blank lines changes which matches survive.
+func checkCandidateLinesTraversed(c *Ctx, p *core.Prog) {
+	mf := p.Func(v2pkg, "(*Classifier).match")
+	if mf == nil {
+		return
+	}
+	nL, bad := 0, ""
+	for _, fn := range pkgClosure(mf, v2pkg) {
+		if isTraceFn(fn) {
+			continue
+		}
+		seenHdr := map[*ssa.BasicBlock]bool{}
+		for _, b := range fn.Blocks {
+			ifi, ok := b.Instrs[len(b.Instrs)-1].(*ssa.If)
+			if !ok {
+				continue
+			}
+			bo, ok := ifi.Cond.(*ssa.BinOp)
+			if !ok || !(strings.HasSuffix(core.AP(bo.X), ".EndLine") || strings.HasSuffix(core.AP(bo.Y), ".EndLine")) {
+				continue
+			}
+			// b is the header of a loop (a back edge reaches it) and one of its successors leaves the loop
+			isHeader := false
+			for _, pr := range b.Preds {
+				if b.Dominates(pr) {
+					isHeader = true
+				}
+			}
+			if !isHeader || seenHdr[b] {
+				continue
+			}
+			seenHdr[b] = true
+			loop := naturalLoop(b)
+			// the counter must be the other operand's phi at the header
+			nL++
+			for lb := range loop {
+				for _, sc := range lb.Succs {
+					if !loop[sc] && lb != b && bad == "" {
+						last := lb.Instrs[len(lb.Instrs)-1]
+						pos := p.Pos(last.Pos())
+						if i2, isIf := last.(*ssa.If); isIf {
+							pos = p.Pos(i2.Cond.Pos())
+						}
+						bad = core.ShortFn(fn) + ": the loop over the lines of a candidate at " + p.Pos(bo.Pos()) + " can also be left at " + pos
+					}
+				}
+			}
+		}
+	}
+	c.R.Check(bad == "", "R05.11", "match: a walk over the lines of a candidate ends only when the lines are exhausted", v2pkg, fmt.Sprintf("%d loops bounded by a candidate's EndLine, each with that test as its only exit", nL),
+		bad+": the lines behind that point are not looked at, so an earlier candidate that shares only those lines is not found - blank lines inserted in front of a notice inside a license text move it out of reach, and the notice is reported although the license covers it")
+	if nL == 0 {
+		c.R.Info("R05.11", "match: walks over the lines of a candidate", p.Pos(mf.Pos()), "no loop bounded by a candidate's EndLine found")
+	}
 }
